@@ -6,11 +6,11 @@ answer per line.  The generator, the hash function and the version string are ta
 harness (`version`, `def`), i.e. the model runs with the *observed* values of the real code.
 
 ```
-variant old|fixed | variant tmp=<0|1> rmfirst=<0|1> utf8=<0|1> exact=<0|1>   (which repairs the source has)
+variant old|fixed | variant tmp=<0|1> rmfirst=<0|1> utf8=<0|1> exact=<0|1> trunc=<0|1>   (which repairs the source has)
 version <hex>
 def <text-hex> <hashline-hex> ok|err <body-hex|-> <report-hex,report-hex…|->      -> def hyp=<bool>
 reset <n> | save | restore
-edit <i> <text-hex> | touch <i> | delout <i> | alter <i> <l1-hex> <l2-hex> | setout <i> <hex>
+edit <i> <text-hex> | touch <i> | delout <i> | alter <i> <l1-hex> <l2-hex> | setout <i> <hex> | settmp <i> <hex>
 build <i> [report] | fbuild <i> [report] | builddir | fbuilddir
 plan <i> [force] [report]                       -> outcome and the action list with sizes
 crash <i> <k> <j> [force] [report]              -> state after crashCut (plan …) k j
@@ -98,6 +98,7 @@ def showPath : Path → String
 def showAct : FsAct → String
   | .remove p => s!"remove:{showPath p}"
   | .create p => s!"create:{showPath p}"
+  | .openKeep p => s!"open-no-truncate:{showPath p}"
   | .write p bs => s!"write:{showPath p}:{bs.length}"
   | .rename s t => s!"rename:{showPath s}:{showPath t}"
 
@@ -110,6 +111,7 @@ def limitCut (acts : List FsAct) (n : Nat) : Nat × Nat :=
     match acts with
     | [] => (k, 0)
     | .create p :: rest => go rest (k + 1) ((p, 0) :: sizes.filter (·.1 != p))
+    | .openKeep p :: rest => go rest (k + 1) ((p, 0) :: sizes.filter (·.1 != p))
     | .write p bs :: rest =>
       let cur := match sizes.find? (·.1 == p) with
         | some x => x.2
@@ -173,8 +175,9 @@ def stepLine (d : DSt) (line : String) : DSt × String :=
   | "variant" :: flags =>
     -- e.g. `variant tmp=1 rmfirst=0 utf8=1 exact=1` (flags not mentioned are off)
     let on (k : String) := flags.contains (k ++ "=1")
-    if flags.all fun f => ["tmp=0", "tmp=1", "rmfirst=0", "rmfirst=1", "utf8=0", "utf8=1", "exact=0", "exact=1"].contains f
-    then ({ d with variant := ⟨on "tmp", on "rmfirst", on "utf8", on "exact"⟩ }, "ok")
+    if flags.all fun f => ["tmp=0", "tmp=1", "rmfirst=0", "rmfirst=1", "utf8=0", "utf8=1", "exact=0", "exact=1",
+        "trunc=0", "trunc=1"].contains f
+    then ({ d with variant := ⟨on "tmp", on "rmfirst", on "utf8", on "exact", !flags.contains "trunc=0"⟩ }, "ok")
     else (d, "bad-op")
   | ["version", v] =>
     match hexArr v with
@@ -217,6 +220,14 @@ def stepLine (d : DSt) (line : String) : DSt × String :=
     match natOf i, hexArr a, hexArr b with
     | some i, some a, some b => doOp d (.alterHeader i a b)
     | _, _, _ => (d, "bad-op")
+  | ["settmp", i, x] =>
+    -- a stale temporary file planted by hand
+    match natOf i, hexArr x with
+    | some i, some x =>
+      let c0 := d.st.clock
+      let d' := { d with st := handWrite d.st (.tmp i) x }
+      (d', s!"- | {showState d' c0}")
+    | _, _ => (d, "bad-op")
   | ["setout", i, x] =>
     match natOf i, hexArr x with
     | some i, some x => doOp d (.setOut i x)
